@@ -111,7 +111,11 @@ class SafetyMonitor(Monitor):
         C = self.clauses
         if not post.alive:
             return g
-        restarted = not pre.alive
+        if len(post.extra) > 2 and ('fresh', 1) in post.extra:
+            # constructed, first tick not yet run: the dump is not loaded, no message is read, nothing is sent; what
+            # the node is after its restart is judged after that first tick (restart = construct + first tick)
+            return g
+        restarted = not pre.alive or (len(pre.extra) > 2 and ('fresh', 1) in pre.extra)
         sums = None
         committed, applied_at, leaders, votes, cbs, neg, regular = g
 
